@@ -115,6 +115,9 @@ def _register_scripted(path):
                 rscript = os.path.join(ws_path, "%s.scripted.restart.sh" % step.name)
                 with open(rscript, "w") as f:
                     f.write("#!%s\n\n%s\n" % (self._exec, step.run["restart"]))
+            for pth in (script, rscript):
+                if pth:
+                    os.chmod(pth, os.stat(pth).st_mode | 0o111)     # ScriptAdapter.write_script does the same
             sched = bool(step.run.get("nodes") or step.run.get("procs"))
             rec({"call": "write_script", "inst": step.name, "scheduled": sched})
             return sched, script, rscript
